@@ -26,6 +26,7 @@ import (
 	"strings"
 	"testing"
 
+	"github.com/algorand/avm-abi/apps"
 	"github.com/algorand/go-algorand/crypto"
 	"github.com/algorand/go-algorand/data/basics"
 	"github.com/algorand/go-algorand/data/transactions"
@@ -88,6 +89,86 @@ type c19World struct {
 	leaseCtr int
 	included []transactions.SignedTxn // members of good groups accepted into the current block
 	leases   []transactions.Transaction
+	// model of the box application's boxes: contents = what the last SUCCESSFUL group wrote (a new box is 24 zero bytes)
+	boxes     map[string]*c19Box
+	boxNames  []string        // creation order (determinism)
+	boxInUse  map[string]bool // a box is touched by at most one member of a group, so the model needs no intra-group order
+	touched   []string        // existing boxes touched by the group being built
+}
+
+type c19Box struct {
+	val       []byte
+	committed bool // created in an earlier block (lives in the ledger) or in the block under construction
+}
+
+func (w *c19World) beginGroup() { w.boxInUse = map[string]bool{}; w.touched = nil }
+
+// pickBox returns an existing box no other member of the group being built uses.
+func (w *c19World) pickBox(wantCommitted, any bool) (string, bool) {
+	for _, i := range w.r.Perm(len(w.boxNames)) {
+		n := w.boxNames[i]
+		if !w.boxInUse[n] && (any || w.boxes[n].committed == wantCommitted) {
+			w.boxInUse[n] = true
+			w.touched = append(w.touched, n)
+			return n, true
+		}
+	}
+	return "", false
+}
+
+func (w *c19World) boxCall(sender basics.Address, op, name string, val []byte) transactions.Transaction {
+	t := w.appCall(sender, w.box, w.minFee(), w.rnd, op, name)
+	if val != nil {
+		t.ApplicationArgs = append(t.ApplicationArgs, val)
+	}
+	t.Boxes = []transactions.BoxRef{{Index: 0, Name: []byte(name)}}
+	return t
+}
+
+// overwrite returns a call that rewrites all 24 bytes of an existing box in place (box_put of the same size,
+// box_replace at offset 0, box_splice of the whole range); failing=true makes the program err right after the write.
+func (w *c19World) overwrite(name string, failing bool) transactions.Transaction {
+	op := []string{"put", "replace", "splice"}[w.r.Intn(3)]
+	if failing {
+		op += "fail"
+	}
+	w.c.Count("box_overwrites_generated:"+op, 1)
+	return w.boxCall(w.accts[w.r.Intn(4)].addr, op, name, w.r.Bytes(24))
+}
+
+// applyModel records the box effects of an ACCEPTED group.
+func (w *c19World) applyModel(g []transactions.SignedTxn) {
+	for i := range g {
+		t := &g[i].Txn
+		if t.Type != protocol.ApplicationCallTx || t.ApplicationID != w.box || len(t.ApplicationArgs) < 2 {
+			continue
+		}
+		name := string(t.ApplicationArgs[1])
+		switch string(t.ApplicationArgs[0]) {
+		case "create":
+			w.boxes[name] = &c19Box{val: make([]byte, 24)}
+			w.boxNames = append(w.boxNames, name)
+		case "put", "replace", "splice":
+			if b := w.boxes[name]; b != nil {
+				b.val = append([]byte(nil), t.ApplicationArgs[2]...)
+				w.c.Count("box_overwrites_committed", 1)
+			}
+		}
+	}
+}
+
+func (w *c19World) boxKey(name string) string { return apps.MakeBoxKey(uint64(w.box), name) }
+
+// ledgerBox reads a box from the LEDGER (latest round), copying the bytes (the slice aliases the tracker's buffer).
+func (w *c19World) ledgerBox(name string) ([]byte, bool) {
+	v, err := w.l.LookupKv(w.l.Latest(), w.boxKey(name))
+	if err != nil {
+		w.c.Harness("LookupKv: %v", err)
+	}
+	if v == nil {
+		return nil, false
+	}
+	return append([]byte{}, v...), true
 }
 
 func (w *c19World) minFee() uint64 { return w.proto.MinTxnFee }
@@ -96,7 +177,21 @@ func (w *c19World) minFee() uint64 { return w.proto.MinTxnFee }
 func (w *c19World) goodMember() transactions.Transaction {
 	a := w.accts
 	r := w.r
-	switch r.Pick([]int{30, 20, 15, 12, 12, 11}) {
+	switch r.Pick([]int{30, 20, 15, 12, 12, 11, 14, 6}) {
+	case 6:
+		// rewrite an existing box in place (one from the ledger or one created earlier in this block)
+		if name, ok := w.pickBox(r.Bool(), false); ok {
+			return w.overwrite(name, false)
+		} else if name, ok := w.pickBox(false, true); ok {
+			return w.overwrite(name, false)
+		}
+		return w.pay(a[r.Intn(4)].addr, a[4+r.Intn(4)].addr, uint64(r.Range(1, 100000)), w.minFee(), w.rnd, w.note())
+	case 7:
+		// read back a box and require the contents the model holds (what the last successful group wrote)
+		if name, ok := w.pickBox(false, true); ok {
+			return w.boxCall(a[r.Intn(4)].addr, "check", name, append([]byte(nil), w.boxes[name].val...))
+		}
+		return w.appCall(a[r.Intn(4)].addr, w.counter, w.minFee(), w.rnd)
 	case 0:
 		return w.pay(a[r.Intn(4)].addr, a[4+r.Intn(4)].addr, uint64(r.Range(1, 100000)), w.minFee(), w.rnd, w.note())
 	case 1:
@@ -196,6 +291,18 @@ func c19Kinds() []c19Kind {
 			t.Boxes = []transactions.BoxRef{{Index: 0, Name: []byte(name)}}
 			return &t
 		}},
+		{name: "box-overwrite-then-err", want: "err opcode", mk: func(w *c19World) *transactions.Transaction {
+			// the program rewrites an existing box in place (box_put of the same size / box_replace / box_splice) and then fails
+			name, ok := w.pickBox(w.r.Bool(), false)
+			if !ok {
+				if name, ok = w.pickBox(false, true); !ok {
+					return nil
+				}
+			}
+			t := w.overwrite(name, true)
+			return &t
+		}},
+		{name: "box-overwrite-then-later-member-fails", want: ""},
 		{name: "lease-clash", want: "lease", mk: func(w *c19World) *transactions.Transaction {
 			if len(w.leases) == 0 {
 				return nil
@@ -269,6 +376,22 @@ func (w *c19World) failingGroup(k c19Kind, n, pos int) []transactions.SignedTxn 
 	}
 	for i := range txns {
 		switch {
+		case k.name == "box-overwrite-then-later-member-fails" && i == pos-1:
+			// a successful in-place rewrite of an existing box ...
+			name, ok := w.pickBox(w.r.Bool(), false)
+			if !ok {
+				if name, ok = w.pickBox(false, true); !ok {
+					return nil
+				}
+			}
+			txns[i] = w.overwrite(name, false)
+		case k.name == "box-overwrite-then-later-member-fails" && i == pos:
+			// ... followed by a member that fails
+			if w.r.Bool() {
+				txns[i] = w.pay(w.poor.addr, w.accts[4].addr, 10*w.proto.MinBalance, w.minFee(), w.rnd, w.note())
+			} else {
+				txns[i] = w.appCall(w.accts[1].addr, w.counter, w.minFee(), w.rnd, "err")
+			}
 		case i == pos && k.name == "duplicate-of-earlier-txn" && n > 1:
 			// inside a group the id of a member depends on the group id, so a replayed earlier transaction would be a
 			// different transaction; the duplicate is the member before it
